@@ -172,9 +172,16 @@ func oneofTypeRef(node *sourcewalk.OneofNode) *TypeRef {
 }
 
 func enumTypeRef(node *sourcewalk.EnumNode) *TypeRef {
+	// the numbers the compiled enum gives its options (visitEnumNode): an explicit
+	// zero value first, then declaration order from 1
 	valMap := make(map[string]int32)
-	for _, value := range node.Schema.Options {
-		valMap[node.Schema.Prefix+value.Name] = value.Number
+	options := node.Schema.Options
+	if len(options) > 0 && options[0].Number == 0 && strings.HasSuffix(options[0].Name, "UNSPECIFIED") {
+		valMap[node.Schema.Prefix+options[0].Name] = 0
+		options = options[1:]
+	}
+	for idx, value := range options {
+		valMap[node.Schema.Prefix+value.Name] = int32(idx + 1)
 	}
 	return &TypeRef{
 		Name:     node.NameInPackage(),
